@@ -3,7 +3,7 @@
    Sem.run_binding w p = Def v then the C++ text printed for c, executed in w, returns v.  The property is decided per generated
    program and world by executing the real output (vlib/c01.py); the theorems below fix the reference semantics the executions
    are compared with -- the points the property statement singles out. *)
-From QV Require Import model.Base model.Lang model.Types model.Tir model.Ceval model.Builder model.Sem proofs.SemProofs proofs.ScopeProofs.
+From QV Require Import model.Base model.Lang model.Types model.Tir model.Ceval model.Builder model.Sem proofs.SemProofs proofs.ScopeProofs proofs.FrameProofs.
 Open Scope Z_scope.
 
 (* int arithmetic: the exact mathematical result, in range -- or undefined (32-bit overflow is never a value) *)
@@ -47,6 +47,25 @@ Theorem C01_partial_fold_agrees_on_literals : forall op bop x y r,
   eval_binary_arith op (CInt x) (CInt y) = inl (CInt r) -> arith bop (VL x) (VL y) = Def (VL r).
 Proof. exact fold_agrees_on_literals. Qed.
 Print Assumptions C01_partial_fold_agrees_on_literals.
+
+(* ... for the five arithmetic and the three bitwise operators *)
+Theorem C01_partial_fold_agrees_arith : forall op bop x y r,
+  (op = BoAdd /\ bop = BAdd) \/ (op = BoSub /\ bop = BSub) \/ (op = BoMul /\ bop = BMul) \/ (op = BoDiv /\ bop = BDiv) \/ (op = BoRem /\ bop = BRem) ->
+  eval_binary_arith op (CInt x) (CInt y) = inl (CInt r) -> arith bop (VL x) (VL y) = Def (VL r).
+Proof. exact fold_agrees_on_literals_all. Qed.
+Print Assumptions C01_partial_fold_agrees_arith.
+Theorem C01_partial_fold_agrees_bitwise : forall op bop x y r,
+  (op = BoAnd /\ bop = BAnd) \/ (op = BoOr /\ bop = BOr) \/ (op = BoXor /\ bop = BXor) ->
+  eval_binary_bitwise op (CInt x) (CInt y) = inl (CInt r) -> arith bop (VL x) (VL y) = Def (VL r).
+Proof. exact fold_bitwise_agrees_on_literals. Qed.
+Print Assumptions C01_partial_fold_agrees_bitwise.
+
+(* the value of an expression is computed without changing any property of any object (method calls are the only trace it leaves): the
+   reference semantics of an evaluation function is a function of the world it is run in *)
+Theorem C01_partial_evaluation_changes_no_property : forall names this x st e v st',
+  eval names this st e x = Def (v, st') -> objs st' = objs st /\ exists t, trace st' = t ++ trace st.
+Proof. exact eval_frame. Qed.
+Print Assumptions C01_partial_evaluation_changes_no_property.
 
 (* definedness: null dereference and reads of never-assigned variables have no value *)
 Theorem C01_partial_null_deref_undefined : forall names this st e o p st1,
